@@ -379,7 +379,7 @@ K("C12/san/from-str", ["C12", "C09", "C02"], SN + "c12_san_from_str_total_len7",
 # ---------------------------------------------------------------------------------------------
 K("C08/cells/one-rank", ["C08", "C12"], BD + "c08_cells_one_rank_roundtrip", ["board::format_cells", "board::parse_cells"],
   "for all boards whose men stand on one (arbitrary) rank: format_cells == canonical FEN board field (reference run-length encoder), parse_cells of it gives the cells back, and an independent reader reads the same cells",
-  bounded="boards with at most one non-empty rank (all 13^8 contents, all 8 ranks); full boards: C08/cells/full-board (thorough)", timeout=2400)
+  bounded="boards with at most one non-empty rank (all 13^8 contents, all 8 ranks); full boards: C08/cells/full-board (thorough)", timeout=5400, mem_gb=24, mem_est=8, tier="thorough")
 K("C08/cells/full-board", ["C08"], BD + "c08_cells_full_board_roundtrip", ["board::format_cells", "board::parse_cells"],
   "for all 13^64 boards: format_cells == canonical FEN board field and parse_cells(format_cells(c)) == c", tier="thorough", timeout=7200, mem_gb=24)
 K("C08/record/tail", ["C08", "C12"], "board::verif_kani_d::c08_record_tail_roundtrip_v2", ["<RawBoard as Display>::fmt", "<RawBoard as FromStr>::from_str", "board::parse_ep_source", "RawBoard::ep_dest"],
@@ -387,7 +387,7 @@ K("C08/record/tail", ["C08", "C12"], "board::verif_kani_d::c08_record_tail_round
   assumes=["C20/text/castling-display", "C20/text/coord-display"], timeout=2400)
 K("C12/fen/parse-cells", ["C12", "C08"], BD + "c12_parse_cells_total_len32", ["board::parse_cells"],
   "for all UTF-8 strings of <= 32 bytes: parse_cells returns a value or an error, never panics (incl. its three closing assert_eq!); Ok iff the independent reader accepts (FEN board with '.' also denoting an empty square), with the same cells",
-  bounded="strings of <= 32 bytes (a full board field has up to 71)", timeout=3000, mem_gb=16)
+  bounded="strings of <= 32 bytes (a full board field has up to 71)", timeout=5400, mem_gb=24, mem_est=8, tier="thorough")
 K("C12/fen/record-tail", ["C12", "C08"], "board::verif_kani_d::c12_raw_from_str_tail_total_v2", ["<RawBoard as FromStr>::from_str", "board::parse_ep_source"],
   "for a fixed board field followed by ANY <= 12 bytes: from_str returns a value or an error, never panics; an accepted record formats to text that parses back to the same raw board, and its mark is on the rank appropriate to the side to move (parse-format-parse stability of the five trailing fields)",
   bounded="<= 12 bytes after the board field", assumes=["C12/utf8-predicate"], timeout=3000, mem_gb=24, mem_est=8)
